@@ -83,6 +83,8 @@ fn one_fu(out: &mut Out, n: u32) {
 
 // ------------------------------------------------------------------ iterator histories
 
+const RV_MAX: usize = 4;
+
 macro_rules! konst_hist {
     ($s:expr, $h:expr, $init:expr, $asstr:expr, $show:expr) => {{
         let s: &str = $s;
@@ -92,26 +94,27 @@ macro_rules! konst_hist {
             let mut v: Vec<String> = Vec::new();
             for e in h {
                 let r = if *e == b'F' { it.copy().next() } else { it.copy().next_back() };
-                match r {
+                let head = match r {
                     Some((x, ni)) => {
                         it = ni;
-                        v.push(format!("S({})@{}", $show(x), view_str(s, $asstr(&it))));
+                        format!("S({})@{}", $show(x), view_str(s, $asstr(&it)))
                     }
-                    None => v.push(format!("N@{}", view_str(s, $asstr(&it)))),
+                    None => format!("N@{}", view_str(s, $asstr(&it))),
+                };
+                // the state after this step, reversed (copy().rev()) and drained from its front:
+                // rev() at ANY point of the iteration
+                let mut r = it.copy().rev();
+                let mut d: Vec<String> = Vec::new();
+                // (the first RV_MAX items: enough to see a wrong end / offset / order, bounded output)
+                while let Some((x, nr)) = r.copy().next() {
+                    if d.len() >= RV_MAX {
+                        break;
+                    }
+                    d.push($show(x));
+                    r = nr;
                 }
+                v.push(format!("{}~R{}", head, d.join(".")));
             }
-            // the state after the history, reversed (copy().rev()) and drained from its front
-            let mut r = it.copy().rev();
-            let mut d: Vec<String> = Vec::new();
-            while let Some((x, nr)) = r.copy().next() {
-                d.push($show(x));
-                r = nr;
-                if d.len() > 10_000 {
-                    d.push("RUNAWAY".into());
-                    break;
-                }
-            }
-            v.push(format!("R{}", d.join(".")));
             format!("[{}]", v.join(","))
         })
     }};
@@ -122,24 +125,24 @@ macro_rules! konst_hist {
 /// for the reversed forms (Rev has no as_str).
 fn std_hist<I, T>(s: &str, h: &[u8], mut it: I, reversed: bool, ch: impl Fn(&T) -> char, show: impl Fn(&T) -> String) -> String
 where
-    I: DoubleEndedIterator<Item = T>,
+    I: DoubleEndedIterator<Item = T> + Clone,
 {
     let (mut lo, mut hi) = (0usize, s.len());
     let mut v: Vec<String> = Vec::new();
     for e in h {
         let front = *e == b'F';
         let r = if front { it.next() } else { it.next_back() };
-        match r {
+        let head = match r {
             Some(x) => {
                 let w = ch(&x).len_utf8();
                 if front != reversed { lo += w } else { hi -= w }
-                v.push(format!("S({})@{}", show(&x), view_str(s, &s[lo..hi])));
+                format!("S({})@{}", show(&x), view_str(s, &s[lo..hi]))
             }
-            None => v.push(format!("N@{}", view_str(s, &s[lo..hi]))),
-        }
+            None => format!("N@{}", view_str(s, &s[lo..hi])),
+        };
+        let d: Vec<String> = it.clone().rev().take(RV_MAX).map(|x| show(&x)).collect();
+        v.push(format!("{}~R{}", head, d.join(".")));
     }
-    let d: Vec<String> = it.rev().map(|x| show(&x)).collect();
-    v.push(format!("R{}", d.join(".")));
     format!("[{}]", v.join(","))
 }
 
@@ -164,13 +167,13 @@ fn one_iter(out: &mut Out, s: &str, h: &[u8]) {
         let mut v: Vec<String> = Vec::new();
         for e in h {
             let r = if *e == b'F' { it.next() } else { it.next_back() };
-            match r {
-                Some(c) => v.push(format!("S({:x})@{}", c as u32, view_str(s, it.as_str()))),
-                None => v.push(format!("N@{}", view_str(s, it.as_str()))),
-            }
+            let head = match r {
+                Some(c) => format!("S({:x})@{}", c as u32, view_str(s, it.as_str())),
+                None => format!("N@{}", view_str(s, it.as_str())),
+            };
+            let d: Vec<String> = it.clone().rev().take(RV_MAX).map(|c| format!("{:x}", c as u32)).collect();
+            v.push(format!("{}~R{}", head, d.join(".")));
         }
-        let d: Vec<String> = it.rev().map(|c| format!("{:x}", c as u32)).collect();
-        v.push(format!("R{}", d.join(".")));
         format!("[{}]", v.join(","))
     };
     let fwd_ci = {
@@ -178,13 +181,13 @@ fn one_iter(out: &mut Out, s: &str, h: &[u8]) {
         let mut v: Vec<String> = Vec::new();
         for e in h {
             let r = if *e == b'F' { it.next() } else { it.next_back() };
-            match r {
-                Some((o, c)) => v.push(format!("S({}:{:x})@{}", o, c as u32, view_str(s, it.as_str()))),
-                None => v.push(format!("N@{}", view_str(s, it.as_str()))),
-            }
+            let head = match r {
+                Some((o, c)) => format!("S({}:{:x})@{}", o, c as u32, view_str(s, it.as_str())),
+                None => format!("N@{}", view_str(s, it.as_str())),
+            };
+            let d: Vec<String> = it.clone().rev().take(RV_MAX).map(|(o, c)| format!("{}:{:x}", o, c as u32)).collect();
+            v.push(format!("{}~R{}", head, d.join(".")));
         }
-        let d: Vec<String> = it.rev().map(|(o, c)| format!("{}:{:x}", o, c as u32)).collect();
-        v.push(format!("R{}", d.join(".")));
         format!("[{}]", v.join(","))
     };
     let st = fields(&[
